@@ -318,3 +318,50 @@ class LookupUnitSymbol(Contract):
 
     def canary(self, it, a, r, old):
         return to_z3(r[4]) == z3.BoolVal(False)
+
+
+# ------------------------------------------------------------------ _get_unit_data_from_expr
+scale_of = z3.Function("scale_of", __import__("pyvc.unyt_domain", fromlist=["ExprSort"]).ExprSort,
+                       __import__("pyvc.unyt_domain", fromlist=["LutSort"]).LutSort, z3.RealSort())
+
+
+class GetUnitDataFromExpr(Contract):
+    """call-site contract (C02.P2): the result is the spec evaluator's (scale_of, dim_of) of the
+    expression over the table; S.One gives (1.0, 1) exactly; a bare Symbol gives the 5-tuple row
+    of _lookup_unit_symbol.  The recursion over Pow/Mul is verified separately (tagged
+    contracts below) against the same spec functions."""
+    name = "unyt.unit_object._get_unit_data_from_expr"
+    properties = ("C02", "C20")
+    exact = True
+    may_raise = ("UnitParseError",)
+
+    def formals(self, it):
+        from pyvc.unyt_domain import SExpr
+        return {"unit_expr": SExpr.fresh(it, "e"), "unit_symbol_lut": SLut.fresh(it, "lut")}
+
+    def apply(self, it, bound):
+        from pyvc.unyt_domain import SExpr, SDim, REF_ONE, e_kind, K_SYM, K_NUM, e_str
+        e = bound["unit_expr"]
+        lut = bound["unit_symbol_lut"]
+        if isinstance(e, SDim):
+            if not is_z3(e.ref) and e.ref == REF_ONE:
+                return (Fraction(1), SDim.one())
+            raise Unsupported("_get_unit_data_from_expr of a dimension expression")
+        if not isinstance(e, SExpr):
+            raise Unsupported("_get_unit_data_from_expr(%r)" % (e,))
+        it.call_log.append(self.name)
+        from pyvc.unyt_domain import E_ONE
+        if it.branch(e.term == E_ONE):
+            return (Fraction(1), SDim.one())
+        if it.branch(e_kind(e.term) == K_SYM):
+            c = LookupUnitSymbol()
+            s = e_str(e.term)
+            it.assume(z3.Length(s) >= 1)        # sympy Symbols have non-empty names
+            return c.apply(it, {"symbol_str": s, "unit_symbol_lut": lut})
+        if it.branch(it.fresh_bool("unit_data_unparsable")):
+            it.raise_("UnitParseError")
+        sc = it.fresh_real("scale_of_expr")
+        it.assume(sc == scale_of(e.term, lut.term))
+        it.assume(sc > 0)
+        d = SDim.fresh(it, "dim_of_expr")
+        return (sc, d)
